@@ -6,10 +6,11 @@ import json, os, subprocess, sys
 root = os.path.dirname(os.path.dirname(os.path.abspath(__file__)))
 prop = sys.argv[1]
 extra = sys.argv[2:]
-out = f"/tmp/seed4/{prop}-out"
-log = open(os.path.join(root, "seeded", "logs", "wave4.log"), "a")
+wave = int(os.environ.get("WAVE", "4"))   # wave 4 -> m5/m6, wave 5 -> m7/m8
+out = f"/tmp/seed{wave}/{prop}-out"
+log = open(os.path.join(root, "seeded", "logs", f"wave{wave}.log"), "a")
 for n in (1, 2):
-    sid = f"{prop}-{prop}-m{n + 4}"
+    sid = f"{prop}-{prop}-m{n + 4 + 2 * (wave - 4)}"
     if not os.path.exists(os.path.join(out, f"mutant{n}.diff")):
         print(sid, "no diff"); continue
     env = dict(os.environ, SEED_ID=sid)
@@ -28,5 +29,5 @@ for n in (1, 2):
         if p.startswith("C") and len(p) == 3:
             res[p] = "caught (no-failing-input-found)" if "no-failing-input-found" in line else "caught with a failing input" if "CAUGHT" in line else "missed" if "MISSED" in line else "error"
     meta["results_first_run"] = res
-    meta["wave"] = 4
+    meta["wave"] = wave
     json.dump(meta, open(os.path.join(d, "meta.json"), "w"), indent=1)
